@@ -118,19 +118,19 @@ theorem follow_eq_batch_prefix {O : Oracles} {q : AggStmt} (hlim : q.limit = non
     (hfollow : followRun O q pre {} = .ok sf) (hupd : aggUpdateRow O q sf env = .ok (sf1, true))
     (hres : aggResult O q sf1 = .ok (sf2, out))
     (hbatch : aggRun O q (pre ++ [env]) {} = .ok sb)
-    (hex : KeysExact (keysOf O q (pre ++ [env]))) :
+    (hex : KeysExact (groupKeysOf O q (pre ++ [env]))) :
     finalResult O q { agg := sb } = .ok out :=
   follow_table_eq_batch_direct hlim pre env hfollow hupd hres hbatch hex
 
 /-- the same relation between the states after any history: every cell of the follow-mode state is similar to the
 batch-mode state's cell (identical but for published PERCENTILE values), so `execute_result` yields the same table -/
 theorem follow_state_similar_to_batch {O : Oracles} {q : AggStmt} (envs : List Env) {sf sb : AggState}
-    (hf : followRun O q envs {} = .ok sf) (hb : aggRun O q envs {} = .ok sb) (hex : KeysExact (keysOf O q envs)) :
+    (hf : followRun O q envs {} = .ok sf) (hb : aggRun O q envs {} = .ok sb) (hex : KeysExact (groupKeysOf O q envs)) :
     (aggResult O q sf).bind (fun r => .ok r.2) = (aggResult O q sb).bind (fun r => (.ok r.2 : Outcome RowOut)) := by
   obtain ⟨S, hsim, hSk⟩ := sim2_runs envs (sim2_init q) (K := []) (fun k hk => by simp at hk) hf hb
   apply aggResult_sim2 hsim
   intro a ha b hb' hab
-  have hk : ∀ k ∈ S, k ∈ keysOf O q envs := fun k hk => by
+  have hk : ∀ k ∈ S, k ∈ groupKeysOf O q envs := fun k hk => by
     rcases hSk k hk with h | h
     · simp at h
     · exact h
@@ -171,9 +171,9 @@ example : ∃ sf sf1 sf2 out, followRun {} exCount [{}] {} = .ok sf ∧ aggUpdat
   ⟨_, _, _, _, rfl, rfl, rfl, rfl, rfl, rfl, rfl⟩
 
 /-- non-vacuity of `follow_eq_batch_prefix`: the key-exactness hypothesis on the same input, and the conclusion -/
-example : KeysExact (keysOf {} exCount ([({} : Env)] ++ [({} : Env)])) := by
+example : KeysExact (groupKeysOf {} exCount ([({} : Env)] ++ [({} : Env)])) := by
   intro a ha b hb _
-  simp [keysOf, keyOf, exCount] at ha hb
+  simp [groupKeysOf, keyOf, exCount] at ha hb
   rw [ha, hb]
 example : finalResult {} exCount { agg := (publishPercentiles (publishPercentiles {})) } = finalResult {} exCount {} := rfl
 
